@@ -783,6 +783,63 @@ func fold(p *core.Prog, r *core.Report, info *types.Info) {
 		}
 	}
 
+	// early exits: Search and Match may give up before searching only when an operand is empty
+	for _, name := range []string{"Search", "Match"} {
+		fd := p.FuncDecl(core.PkgGts, name)
+		if fd == nil || fd.Body == nil {
+			continue
+		}
+		par := core.Parents(fd.Body)
+		n := 0
+		for _, rs := range core.Returns(fd.Body) {
+			if len(rs.Results) != 1 || !core.IsNil(info, rs.Results[0]) {
+				continue
+			}
+			n++
+			key := fmt.Sprintf("gts.%s|early-exit#%d", name, n)
+			var cond ast.Expr
+			for m := par[rs]; m != nil; m = par[m] {
+				if is, ok := m.(*ast.IfStmt); ok {
+					cond = is.Cond
+					break
+				}
+			}
+			okEmpty := cond != nil
+			var check func(e ast.Expr)
+			check = func(e ast.Expr) {
+				be, isBin := ast.Unparen(e).(*ast.BinaryExpr)
+				if !isBin {
+					// `err != nil` after compiling the pattern is a legitimate exit for Match
+					okEmpty = false
+					return
+				}
+				if be.Op == token.LOR {
+					check(be.X)
+					check(be.Y)
+					return
+				}
+				if be.Op == token.NEQ && core.IsNil(info, be.Y) {
+					if tv, ok := info.Types[be.X]; ok && tv.Type.String() == "error" {
+						return
+					}
+				}
+				z, isZero := core.ConstInt(info, be.Y)
+				c, isCall := ast.Unparen(be.X).(*ast.CallExpr)
+				if be.Op != token.EQL || !isZero || z != 0 || !isCall || !(core.IsCallTo(info, c, core.PkgGts+".Len") || core.IsBuiltin(info, c, "len")) {
+					okEmpty = false
+				}
+			}
+			if cond != nil {
+				check(cond)
+			}
+			if okEmpty {
+				r.Ok("FOLD", key, p.Pos(rs.Pos()), "gives up before searching only for an empty operand (or an uncompilable pattern)")
+			} else {
+				r.Bad("FOLD", key, p.Pos(rs.Pos()), "returns no hits before searching on a condition other than an empty operand: occurrences that satisfy it are never reported")
+			}
+		}
+	}
+
 	// Match
 	if fd := p.FuncDecl(core.PkgGts, "Match"); fd != nil && fd.Body != nil {
 		asg := core.Assigns(info, fd.Body)
